@@ -267,9 +267,23 @@ def perm_loops(f):
     for lp in f.body.find('ForStmt'):
         body = lp.kids[4]
         sw = None
+        sw_extra = []
+
+        def _values_nodes(c):
+            """subscripts P->values[..] in the call, also through const locals initialised from them inside the loop"""
+            out_ = []
+            for a in c.kids[1:]:
+                a0 = strip(a, casts=True)
+                if a0.kind == 'DeclRefExpr' and a0.refkind == 'VarDecl':
+                    d = fs.single_def(a0.refid)
+                    if d is not None and any(x is d for x in body.walk()):
+                        out_ += [x for x in d.walk() if x.kind == 'ArraySubscriptExpr']
+                out_ += [x for x in a.walk() if x.kind == 'ArraySubscriptExpr']
+            return [x for x in out_ if strip(x.kids[0], casts=True).kind == 'MemberExpr' and strip(x.kids[0], casts=True).name == 'values']
         for c in body.find('CallExpr'):
-            if callee_name(c) in SWAPPERS and any(x.kind == 'MemberExpr' and x.name == 'values' for x in c.walk()):
+            if callee_name(c) in SWAPPERS and _values_nodes(c):
                 sw = c
+                sw_extra = _values_nodes(c)
         if sw is None:
             # inline swap of a local permutation array through P->values[...]
             asg = [n for n in body.walk() if n.kind == 'BinaryOperator' and n.op == '=' and any(x.kind == 'MemberExpr' and x.name == 'values' for x in n.walk())]
@@ -287,7 +301,7 @@ def perm_loops(f):
         vid, lo, hi, step = iv
         # effective direction = loop direction x sign of the loop variable in the index of P->values[...]
         idx_exprs = []
-        for x in list(sw.walk()) + ([] if sw.kind == 'CallExpr' else [y for a_ in body.walk() if a_.kind == 'BinaryOperator' and a_.op == '=' for y in a_.walk()]):
+        for x in sw_extra + list(sw.walk()) + ([] if sw.kind == 'CallExpr' else [y for a_ in body.walk() if a_.kind == 'BinaryOperator' and a_.op == '=' for y in a_.walk()]):
             if x.kind == 'ArraySubscriptExpr':
                 b = strip(x.kids[0], casts=True)
                 if b.kind == 'MemberExpr' and b.name == 'values':
@@ -1182,3 +1196,98 @@ def rule_F10(ctx, prog, label, rule='F10'):
                       'the block products of %s do not cover the index cube exactly once: %s' % (name, '; '.join(p[1] for p in problems[:2])), {}, label))
     rr.require_floor(2, 'multi-core product schemes')
     return rr
+
+
+# ====================================================================== F11 column-permutation fix-up of the recursive PLE
+def rule_F11(ctx, prog, label, rule='F11'):
+    """_mzd_ple, after the second recursive call: Q2 is a window of Q at n1, holding pivot columns relative to n1.  The fix-up
+    (a) translates all of Q2 by n1 and (b) rotates the r2 pivot entries from position n1.. to position r1.. .  Because Q2 aliases
+    Q, the rotation must read *translated* values: the translation loop dominates the rotation loop on the CFG; the rotation
+    copies entry n1 + t (= Q2 entry t) to entry r1 + t; the translation covers all ncols - n1 entries of Q2."""
+    from .cfg import cfg_of
+    rr = RuleResult(rule, 'recursive PLE: the column permutation of the right block is translated by n1 before its r2 pivot entries are rotated to position r1')
+    f = prog.funcs.get('_mzd_ple')
+    if f is None or f.body is None:
+        raise AnalysisBroken('F11: _mzd_ple vanished')
+    fs = FuncSym(f)
+    g = cfg_of(f)
+    dom = g.dominators()
+    Q = [p for p in f.params if 'mzp_t' in (p.type or '')]
+    if len(Q) < 2:
+        raise AnalysisBroken('F11: _mzd_ple(A, P, Q, ..) signature not recognised')
+    Qp = Q[1]
+    # windows of Q
+    qwins = {}
+    for n in f.body.walk():
+        if n.kind == 'VarDecl' and n.kids and n.init:
+            d0 = strip(n.kids[-1], casts=True)
+            if d0.kind == 'CallExpr' and callee_name(d0) == 'mzp_init_window' and strip(d0.kids[1], casts=True).kind == 'DeclRefExpr' and strip(d0.kids[1], casts=True).refid == Qp.id:
+                qwins[n.id] = (n.name, fs.sym(d0.kids[2]))
+    trans, rots = [], []
+    for n in f.body.walk():
+        if n.kind == 'CompoundAssignOperator' and n.op == '+=':
+            l = strip(n.kids[0], casts=True)
+            if l.kind == 'ArraySubscriptExpr':
+                b = strip(l.kids[0], casts=True)
+                if b.kind == 'MemberExpr' and b.name == 'values':
+                    o = strip(b.kids[0], casts=True)
+                    if o.kind == 'DeclRefExpr' and o.refid in qwins:
+                        trans.append((n, o.refid, l.kids[1]))
+        if n.kind == 'BinaryOperator' and n.op == '=':
+            l, r = strip(n.kids[0], casts=True), strip(n.kids[1], casts=True)
+            if l.kind == 'ArraySubscriptExpr' and r.kind == 'ArraySubscriptExpr':
+                bl, br = strip(l.kids[0], casts=True), strip(r.kids[0], casts=True)
+                if bl.kind == 'MemberExpr' and bl.name == 'values' and br.kind == 'MemberExpr' and br.name == 'values':
+                    ol, orr = strip(bl.kids[0], casts=True), strip(br.kids[0], casts=True)
+                    if ol.kind == 'DeclRefExpr' and ol.refid == Qp.id and orr.kind == 'DeclRefExpr' and (orr.refid == Qp.id or orr.refid in qwins):
+                        rots.append((n, l.kids[1], orr.refid, r.kids[1]))
+    rr.instances += 1
+    if len(trans) != 1 or len(rots) != 1:
+        raise AnalysisBroken('F11: fix-up of Q in _mzd_ple not recognised (%d translations, %d rotations)' % (len(trans), len(rots)))
+    tn, twin, tidx = trans[0]
+    rn, didx, swin, sidx = rots[0]
+    off = qwins[twin][1]                       # n1
+    problems = []
+
+    def owner(node):
+        best = None
+        for c in g.nodes:
+            if c.ast is not None and c.kind in ('stmt', 'branch') and any(x is node for x in c.ast.walk()):
+                best = c
+        return best
+    tc, rc = owner(tn), owner(rn)
+    if tc is None or rc is None:
+        raise AnalysisBroken('F11: statements not found in the CFG')
+    # the loop headers: the rotation must come after the complete translation loop
+    tl, rl = fs.enclosing(tn, ('ForStmt',)), fs.enclosing(rn, ('ForStmt',))
+    if tl is None or rl is None:
+        raise AnalysisBroken('F11: translation / rotation are not loops')
+    if not ((tl.line, tl.col or 0) < (rl.line, rl.col or 0) and tc.id in dom.get(rc.id, ()) or _loop_before(g, dom, tl, rl)):
+        problems.append('the pivot entries are rotated to position r1 before the window `%s` has been translated by %r: the copied column numbers are still relative to the right block' % (qwins[twin][0], off))
+    # rotation index relation: dest = r1 + t, source = n1 + t (through Q) or t (through the window)
+    d_l, s_l = fs.sym(didx), fs.sym(sidx)
+    src_abs = s_l + (off if swin in qwins else Lin(0))
+    # both follow loop counters advancing together: compare at the first iteration
+    def at_start(l, loop):
+        out = l
+        init = loop.kids[0]
+        decls = [v for v in init.kids if v.kind == 'VarDecl'] if init.kind == 'DeclStmt' else []
+        for v in decls:
+            if v.name in out.t and v.kids:
+                out = out.subst(v.name, fs.sym(v.kids[-1]))
+        return out
+    d0, s0 = at_start(d_l, rl), at_start(src_abs, rl)
+    if not (s0 == off):
+        problems.append('the rotation starts reading at entry %r of Q, the pivot entries of the right block start at %r' % (s0, off))
+    rr.ob(not problems, dict(function='_mzd_ple', translation=pp(tn)[:40], rotation=pp(rn)[:50], first_dest=repr(d0), first_source=repr(s0)),
+          Finding(rule, '%s|_mzd_ple' % rule, rn.loc, '_mzd_ple', 'fix-up of Q after the second recursive call: ' + '; '.join(problems), {}, label))
+    return rr
+
+
+def _loop_before(g, dom, tl, rl):
+    """every CFG node of loop rl is dominated by the exit test of loop tl (tl completes before rl starts)"""
+    tb = [n for n in g.nodes if n.kind == 'branch' and n.tag is tl]
+    rb = [n for n in g.nodes if n.kind == 'branch' and n.tag is rl]
+    if not tb or not rb:
+        return False
+    return tb[0].id in dom.get(rb[0].id, ()) and (tl.line, tl.col or 0) < (rl.line, rl.col or 0)
